@@ -30,6 +30,7 @@ func (P *Program) nestedByValue() map[types.Type]bool {
 		return P.nested
 	}
 	out := map[types.Type]bool{}
+	P.arrayElems = map[string]bool{}
 	seen := map[types.Type]bool{}
 	var walk func(t types.Type, inside bool)
 	walk = func(t types.Type, inside bool) {
@@ -52,6 +53,7 @@ func (P *Program) nestedByValue() map[types.Type]bool {
 				walk(u.Field(i).Type(), true)
 			}
 		case *types.Array:
+			P.arrayElems[types.TypeString(u.Elem(), nil)] = true
 			walk(u.Elem(), true)
 		case *types.Slice:
 			walk(u.Elem(), true)
@@ -177,6 +179,7 @@ func (vc *VC) Generate() (err error) {
 	vc.assume("(<= 0 alloc_0)")
 	vc.collectMapKinds(&h)
 	vc.heap0 = h.clone()
+	vc.recordBounds(&h)
 	for _, p := range fn.Params {
 		terms := vc.freshVals("p_"+p.Name(), p.Type())
 		vc.vals[p] = terms
@@ -297,6 +300,9 @@ func (vc *VC) translateBody(entryGuard string, h0 Heap) {
 		if li != nil {
 			vc.loopHeader(li, R, &h)
 		}
+		vc.recordBounds(&h)
+		if false {
+		}
 		vc.curR = R
 		vc.curBlock = b
 		for _, in := range b.Instrs {
@@ -304,6 +310,7 @@ func (vc *VC) translateBody(entryGuard string, h0 Heap) {
 				continue
 			}
 			vc.instr(in, &h)
+			vc.recordBounds(&h)
 		}
 		vc.blockOut[b] = h
 		vc.blockExit[b] = vc.curR
